@@ -138,3 +138,16 @@ decoder("multidecoder.decoders.base64.find_FromBase64String", ["C01", "C03", "C1
         each={**T("powershell.bytes", "encoding.base64"), "at-most-one-xor-child-spanning-the-value": "nchildren(node) <= 1 and " + XOR_CHILD})
 decoder("multidecoder.decoders.hex.find_FromHexString", ["C01", "C03", "C13"], collector="out",
         each={**T("powershell.bytes", "encoding.hexidecimal"), "at-most-one-xor-child-spanning-the-value": "nchildren(node) <= 1 and " + XOR_CHILD})
+
+# ---- windows paths (C03 / C12): DecoderOK spans; the list indexes into the normalised path are NOT proved (ntpath.normpath is opaque)
+contract("ntpath.normpath", props=["C12"], trusted=True, types={"path": "bytes"}, returns="bytes", notes="ASSUMED total on bytes")
+contract("ntpath.splitext", props=["C12"], trusted=True, types={"p": "bytes"}, returns="tuple[bytes, bytes]", notes="ASSUMED total on bytes")
+decoder(
+    "multidecoder.decoders.path.find_windows_path",
+    ["C01", "C03", "C12"],
+    collector="output",
+    types={"output": "list[Node]", "children": "list[Node]"},
+    each={"label": "node.obfuscation in ('', 'windows.dotpath')", "type": "node.type in ('windows.device.path', 'windows.unc.path', 'windows.path')"},
+    # a device path starts with two separators and a '.' or '?': the first two pieces are empty and the third is not
+    asserts={"path_type = 'windows.device.path'": {"device-prefix-occupies-a-segment": "implies(len(segments) >= 3, len(segments[2]) >= 1)"}},
+)
